@@ -162,11 +162,13 @@ func main() {
 	paths := fs.Int("paths", 20, "number of random paths (det-run)")
 	maxLen := fs.Int("len", 25, "maximum path length (det-run)")
 	replicas := fs.Int("replicas", 4, "independent instances per path (det-run)")
+	tickscale := fs.Int64("tickscale", 1, "one abstract tick = 500 ms * tickscale (l1 commands)")
 	layouts := fs.String("layouts", "", "TLC output with LAYOUT lines (fmt-check)")
 	vectors := fs.String("vectors", "", "pinned vectors file (fmt-check)")
 	rounds := fs.Int("rounds", 50, "seeded fills per case (fmt-check)")
 	writeVectors := fs.Bool("write-vectors", false, "regenerate the pinned vectors file")
 	_ = fs.Parse(os.Args[2:])
+	l1.TickMs = 500 * *tickscale
 
 	defer func() {
 		if r := recover(); r != nil {
